@@ -94,6 +94,8 @@ func checkC03(args []string) {
 		g := genVP8L(rng, 20, 14)
 		if i >= n {
 			g = genVP8LLongCopies(rng)
+		} else if i%9 == 4 {
+			g = genVP8LSparse(rng)
 		}
 		id := fmt.Sprintf("g%d", i)
 		pix, w, h, err, hang := decodeToARGB(wrapVP8L(g.Bytes), 20*time.Second)
